@@ -1,4 +1,6 @@
 """C04 - one label per input row, unlabelled margin exactly W-1, K MRFs of size NW (both front ends)."""
+import numpy as np
+
 from ticcmon import e2e_check
 from ticcmon.checks import e2e_common as ec
 
@@ -15,6 +17,8 @@ def plan(tier, seed):
     specs = ec.plan_e2e(seed, 4, MIX, 200 if tier == "quick" else 2000, nwcap=12 if tier == "quick" else 24)
     if tier == "thorough":
         specs += ec.fixture_specs()
+    for p in range(2 if tier == "quick" else 6):
+        specs.append(dict(name="wide-%d" % p, mode="interp", what="wide", n=5 if tier == "quick" else 12, seed=[seed, 44, p]))
     return specs
 
 
@@ -22,7 +26,27 @@ def nontrivial(run, I):
     return "m" if run.W >= 2 else None
 
 
+def wide_cases(spec):
+    """More sensors than rows (T < N): nothing in the statement forbids it, and a "helpful" transposition would go unnoticed
+    on ordinary tall data."""
+    rng = np.random.default_rng(spec["seed"])
+    for i in range(spec["n"]):
+        W = int(rng.integers(1, 3))
+        N = int(rng.integers(7, 13))
+        T = N - int(rng.integers(1, 4))
+        if T - W + 1 < 4:
+            T = W + 3
+        yield dict(front="single" if i % 3 else "joint",
+                   data=dict(gen="regime", seed=int(rng.integers(0, 2 ** 31)), T=T if i % 3 else [T, T + 1], N=N, n_reg=2, seg=4, scale=1.0, flavor="plain"),
+                   W=W, K=2, beta=dict(form="float", value=1.0), lam=dict(form="float", value=0.5), m=1, limit=2, biased=True, eps=0.0,
+                   nproc=1, mp=False, rng_seed=int(rng.integers(0, 2 ** 31)), init=dict(kind="alternating"), container="list")
+
+
 def run_shard(spec, res):
+    if spec.get("what") == "wide":
+        e2e_check.run_cases(res, wide_cases(spec), PROPS, lambda run, I: "w", coverage_props=())
+        res.count("wide_data_runs", spec["n"])
+        return
     ec.run_e2e_shard(spec, res, PROPS, nontrivial)
 
 
@@ -33,5 +57,6 @@ def replay(case, res):
 def finalize(merged, tier):
     out = {"inconclusive": []}
     ec.min_counter(merged, out, "results_checked", 100 if tier == "quick" else 1000)
+    ec.min_counter(merged, out, "wide_data_runs", 8 if tier == "quick" else 60)
     ec.unexpected(merged, out)
     return out
